@@ -216,7 +216,11 @@ func orientExactHandler(raw json.RawMessage) map[string]any {
 	var res [][]int
 	for _, pm := range perms3 {
 		r1, _ := guardI(func() int { return int(bigxy.OrientationIndex(p[pm[0]], p[pm[1]], p[pm[2]])) })
-		r2, _ := guardI(func() int { return int(xy.OrientationIndex(p[pm[0]], p[pm[1]], p[pm[2]])) })
+		// xy.OrientationIndex with extra ordinates (they must be ignored) on every other argument order
+		k := (pm[0] + 2*pm[1]) % 2 * 2
+		r2, _ := guardI(func() int {
+			return int(xy.OrientationIndex(withExtra(p[pm[0]], k, pm[0]), withExtra(p[pm[1]], k, pm[1]+1), withExtra(p[pm[2]], k, pm[2]+2)))
+		})
 		res = append(res, []int{r1, r2})
 	}
 	xs := [][]string{}
